@@ -561,6 +561,92 @@ def c13(ctx):
                     "distinct = records")
 
 
+IF_INV = ["TypeOK", "EveryReturnEqualsSequential", "OnlySupportedImplInvoked", "StoresIdempotent", "DetectAtMostOncePerCall", "NoRedetectAfterImpl"]
+
+
+def lib_trace_violations(ctx, tr, tag, viol):
+    for (pp, tup) in viol:
+        recd = C.record_at(pp, tup[1])
+        bad = [o for o in recd.get("obs", []) if o.get("e") == tup[3]][:1]
+        ctx.violation("%s:%s:%s" % (tag, tup[2], tup[3]),
+                      "%s: %s of %s differs from the oracle (needle %d bytes, haystack %d bytes; %d observation(s) of this record fail)" % (
+                          tag, tup[2], tup[3], len(recd.get("n", [])), len(recd.get("h", [])), tup[4]),
+                      {"record": {k: recd[k] for k in ("k", "n", "h") if k in recd}, "observation": bad})
+
+
+def routes_conformance(ctx, tr):
+    """Per-thread projection of the Ifunc spec on the H6 events: a call either loads an implementation ([101]) or
+    loads detect, detects, stores ([100, 11x, 120]); after that, the same thread never sees detect again for that routine."""
+    seen_impl = {}
+    bad = 0
+    n = 0
+    detects = 0
+    levels = set()
+    with open(tr) as f:
+        for line in f:
+            r = json.loads(line)
+            if r.get("k") != "conc":
+                continue
+            n += 1
+            ro = r["routes"]
+            key = (r["proc"], r["tid"], r["obs"][0]["e"].split(".", 1)[1])
+            if ro == [101]:
+                seen_impl[key] = True
+            elif len(ro) == 3 and ro[0] == 100 and ro[1] in (111, 112, 113) and ro[2] == 120:
+                detects += 1
+                levels.add(ro[1])
+                if seen_impl.get(key):
+                    bad += 1
+                seen_impl[key] = True
+            elif ro == []:
+                pass    # haystack served without the dispatcher (not on x86-64)
+            else:
+                bad += 1
+    ctx.add_counters({"dispatch_calls": n, "dispatch_detects_observed": detects})
+    if bad:
+        ctx.drift("dispatcher event sequences of %d call(s) are not paths of the per-thread projection of Ifunc" % bad)
+    return detects
+
+
+def c15(ctx):
+    q = ctx.quick
+    shards = []
+    for av in ("avx2", "sse2", "fallback"):
+        shards.append(("if_%s" % av, "Ifunc", dict(Threads={"mv:t1", "mv:t2", "mv:t3"}, Routines={"mv:r1"} if q else {"mv:r1", "mv:r2"}, Calls=2, Args={"mv:a1", "mv:a2"},
+                                                   Avail=av, CacheWhat="function"), IF_INV, 4))
+    if not q:
+        shards.append(("if_4x2", "Ifunc", dict(Threads={"mv:t1", "mv:t2", "mv:t3", "mv:t4"}, Routines={"mv:r1"}, Calls=2, Args={"mv:a1"}, Avail="sse2", CacheWhat="function"), IF_INV, 6))
+    jobs = []
+    for (tag, mod, consts, invs, w) in shards:
+        def job(tag=tag, mod=mod, consts=consts, invs=invs, w=w):
+            r = run_tlc(ctx, mod, consts, invs, tag, workers=w, timeout=3000, specification="FairSpec", properties=["EveryCallReturns"])
+            log("[tlc] %s %s: %d distinct states %.1fs" % (mod, tag, r["distinct_states"], r["seconds"]))
+        jobs.append(job)
+    parallel(jobs)
+    binp = C.build_harness()
+    total_detects = 0
+    for force in ("avx2", "sse2", "fallback"):
+        tr = os.path.join(ctx.dir, "conc_%s.ndjson" % force)
+        rep, rc, err = C.run_harness(ctx, binp, ["conc", "--trace", tr, "--procs", 30 if q else 120, "--rounds", 30 if q else 60, "--force", force], "conc_" + force)
+        if rep is None:
+            raise ToolError("concurrency recorder failed rc=%s: %s" % (rc, err[-1500:]))
+        C.absorb_report(ctx, rep, {"panic"}, "conc@" + force)
+        n, viol, summ = C.validate_trace(ctx, "Trace_Lib", tr, {}, "conc_" + force, max_records=1500, par=12)
+        lib_trace_violations(ctx, tr, "concurrent@" + force, viol)
+        for s_ in summ:
+            ctx.evaluations += s_[3]
+        total_detects += routes_conformance(ctx, tr)
+        ctx.sample({"from": "conc trace", "case": C.record_at(tr, 1)})
+    ctx.nontrivial += total_detects
+    ctx.assumptions.append("schedules of the real code are sampled (fresh processes, barrier release, 2..32 threads), not exhausted; exhaustiveness over schedules is at model level")
+    return C.finish(ctx, "model_checking",
+                    "Ifunc: TLC explores every interleaving of 3 threads x 2 calls (thorough: 2 routines, 4 threads) of the dispatcher with Relaxed loads/stores modelled by per-location "
+                    "modification orders and per-thread views, for every CPU-feature outcome; invariants: every return equals the sequential answer, only supported implementations are invoked, "
+                    "stores are idempotent; liveness EveryCallReturns under weak fairness. Code: fresh child processes whose threads are released by a barrier make the first calls to all "
+                    "seven dispatched routines, then search fresh shared Finder/FinderRev objects and clones of a partially consumed iterator concurrently; every returned value is validated by "
+                    "TLC (Trace_Lib) against the sequential oracle; dispatcher events are checked against the per-thread projection of the spec (conformance); non-trivial = calls that raced through detect")
+
+
 def c01(ctx):
     byte_search(ctx, ["find"], {"result", "panic"})
     return C.finish(ctx, "model_checking", RULE_BYTES)
@@ -577,7 +663,7 @@ def c07(ctx):
     return C.finish(ctx, "model_checking", RULE_BYTES)
 
 
-RECIPES = {"C01": c01, "C02": c02, "C03": c03, "C04": c04, "C05": c05, "C06": c06, "C07": c07, "C08": c08, "C10": c10, "C11": c11, "C12": c12, "C13": c13, "C14": c14, "C16": c16, "C17": c17, "C18": c18, "C19": c19}
+RECIPES = {"C01": c01, "C02": c02, "C03": c03, "C04": c04, "C05": c05, "C06": c06, "C07": c07, "C08": c08, "C10": c10, "C11": c11, "C12": c12, "C13": c13, "C14": c14, "C15": c15, "C16": c16, "C17": c17, "C18": c18, "C19": c19}
 
 
 def run(prop, tier, seed):
